@@ -162,7 +162,8 @@ def exec_instr(ins, regs, B):
     if op == 'reshape':
         return B.reshape(A[0], tuple(ins['shape']))
     if op == 'transpose':
-        return B.transpose(A[0])
+        # the attribute form x.T and the function form are the same operation
+        return A[0].T if ins.get('attr') else B.transpose(A[0])
     if op == 'getitem':
         return A[0][dec_index(ins['ix'])]
     if op == 'zeros':
@@ -640,7 +641,8 @@ class Gen(object):
             return False
         ra = self.regs[a]
         flat = 1 in ra.sh and ra.flat
-        self.emit('transpose', [a], (ra.sh[1], ra.sh[0]), ra.mag, t=True, p=True, pos=ra.pos, flat=flat)
+        form = {'attr': True} if self.rng.random() < 0.5 else {}
+        self.emit('transpose', [a], (ra.sh[1], ra.sh[0]), ra.mag, t=True, p=True, pos=ra.pos, flat=flat, **form)
         return True
 
     def op_getitem(self):
